@@ -331,6 +331,26 @@ def limit_streams(mls: int, mfs: int, mh: int):
                + trs + b"\r\n" + NEXT)
 
 
+def compressed_request_streams():
+    """Requests with Content-Encoding bodies (decoded by the request parser): only for the
+    segmentation-independence check, where the oracle is the un-cut run."""
+    import gzip
+    import zlib
+    co = zlib.compressobj(wbits=-15)
+    raw = co.compress(b"hello hello hello") + co.flush()
+    gz = gzip.compress(b"hello", mtime=0)
+    pre = b"POST /c HTTP/1.1\r\nHost: a\r\n"
+    for nm, enc, blob in (("rawdeflate", b"deflate", raw), ("zlibdeflate", b"deflate", zlib.compress(b"hello hello")), ("gzip", b"gzip", gz)):
+        yield ("creq", nm, "cl"), pre + b"Content-Encoding: " + enc + b"\r\nContent-Length: %d\r\n\r\n" % len(blob) + blob + NEXT
+        yield ("creq", nm, "chunked1"), (pre + b"Content-Encoding: " + enc + b"\r\nTransfer-Encoding: chunked\r\n\r\n%x\r\n" % len(blob)
+                                         + blob + b"\r\n0\r\n\r\n" + NEXT)
+        h = max(1, len(blob) // 2)
+        yield ("creq", nm, "chunked2"), (pre + b"Content-Encoding: " + enc + b"\r\nTransfer-Encoding: chunked\r\n\r\n%x\r\n" % h + blob[:h]
+                                         + b"\r\n%x\r\n" % (len(blob) - h) + blob[h:] + b"\r\n0\r\n\r\n" + NEXT)
+    yield ("creq", "rawdeflate", "truncated"), pre + b"Content-Encoding: deflate\r\nContent-Length: %d\r\n\r\n" % (len(raw) - 3) + raw[:-3] + NEXT
+    yield ("creq", "gzip", "garbage"), pre + b"Content-Encoding: gzip\r\nContent-Length: 6\r\n\r\nnotgz!" + NEXT
+
+
 # ---------------------------------------------------------------- responses
 def response_streams():
     """(label, stream, parser kwargs) for the response parser."""
@@ -359,6 +379,9 @@ def response_streams():
     add("bad-version", b"HTTP/1.1x 200 OK\r\n\r\n")
     add("ctl-in-value", ok + b"X: a\x00b\r\nContent-Length: 0\r\n\r\n")
     add("bad-chunk", ok + b"Transfer-Encoding: chunked\r\n\r\nzz\r\nhello\r\n0\r\n\r\n")
+    add("chunk-crcrlf", ok + b"Transfer-Encoding: chunked\r\n\r\n5\r\nhello\r\r\n0\r\n\r\n")
+    add("chunk-cr-only", ok + b"Transfer-Encoding: chunked\r\n\r\n5\r\nhello\r0\r\n\r\n")
+    add("chunk-lfcr", ok + b"Transfer-Encoding: chunked\r\n\r\n5\r\nhello\n\r0\r\n\r\n")
     add("chunk-nocrlf", ok + b"Transfer-Encoding: chunked\r\n\r\n5\r\nhelloXX0\r\n\r\n")
     import gzip
     import zlib
@@ -368,6 +391,18 @@ def response_streams():
     add("deflate-bigger", ok + b"Content-Encoding: deflate\r\nContent-Length: %d\r\n\r\n" % len(zl) + zl)
     add("deflate-chunked", ok + b"Content-Encoding: deflate\r\nTransfer-Encoding: chunked\r\n\r\n"
         b"6\r\n" + bytes.fromhex("789ccb48cdc9") + b"\r\n7\r\n" + bytes.fromhex("c9070006" "2c0215")[:7] + b"\r\n0\r\n\r\n")
+    # raw deflate (no zlib header: the decoder sniffs the first body byte), zlib and gzip bodies, length- and chunk-framed
+    co = zlib.compressobj(wbits=-15)
+    raw = co.compress(b"hello hello hello") + co.flush()
+    for nm, enc, blob in (("rawdeflate", b"deflate", raw), ("zlibdeflate", b"deflate", zlib.compress(b"hello hello")), ("gzip2", b"gzip", gz)):
+        add(nm + "-cl", ok + b"Content-Encoding: " + enc + b"\r\nContent-Length: %d\r\n\r\n" % len(blob) + blob)
+        add(nm + "-chunked1", ok + b"Content-Encoding: " + enc + b"\r\nTransfer-Encoding: chunked\r\n\r\n%x\r\n" % len(blob) + blob + b"\r\n0\r\n\r\n")
+        h = max(1, len(blob) // 2)
+        add(nm + "-chunked2", ok + b"Content-Encoding: " + enc + b"\r\nTransfer-Encoding: chunked\r\n\r\n%x\r\n" % h + blob[:h]
+            + b"\r\n%x;e=1\r\n" % (len(blob) - h) + blob[h:] + b"\r\n0\r\nX-T: v\r\n\r\n")
+        add(nm + "-eof", ok + b"Content-Encoding: " + enc + b"\r\n\r\n" + blob, read_until_eof=True)
+    add("rawdeflate-truncated", ok + b"Content-Encoding: deflate\r\nContent-Length: %d\r\n\r\n" % (len(raw) - 3) + raw[:-3])
+    add("gzip-garbage", ok + b"Content-Encoding: gzip\r\nContent-Length: 6\r\n\r\nnotgz!")
     add("upgrade", b"HTTP/1.1 101 Switching Protocols\r\nUpgrade: websocket\r\nConnection: upgrade\r\n\r\n\x81\x02hi")
     add("conn-close-extra", ok + b"Connection: close\r\nContent-Length: 1\r\n\r\nxHTTP/1.1 200 OK\r\n\r\n")
     add("long-reason", b"HTTP/1.1 200 " + b"r" * 70 + b"\r\nContent-Length: 0\r\n\r\n")
